@@ -17,6 +17,8 @@ import concurrent.futures, copy, hashlib, json, math, os, shutil, subprocess, ti
 import common, minifont
 
 RELSEM = os.path.join(common.HARNESS, "target", "relsem", "fontc")
+VHLIMITS = os.path.join(common.HARNESS, "target", "debug", "vh-limits")
+BIN = {}     # private copies of the binaries used by this run: dbg, rel, vh-limits
 BIG = 1000000
 PERCENT = {50.0: 1, 62.5: 2, 75.0: 3, 87.5: 4, 100.0: 5, 112.5: 6, 125.0: 7, 150.0: 8, 200.0: 9}  # OS/2 usWidthClass
 
@@ -33,6 +35,45 @@ def build_relsem():
     if r.returncode != 0 or not os.path.exists(RELSEM):
         raise common.ToolError("relsem build of fontc failed: %s" % r.stderr[-2000:])
     common.log("release-semantics fontc built in %.0fs" % (time.time() - t))
+
+
+def private_binaries(ctx):
+    """The target directory is shared: another check's build may replace a binary while this run uses it.
+    Work from private copies taken right after our own build."""
+    for key, src in (("dbg", common.FONTC), ("rel", RELSEM), ("vh-limits", VHLIMITS)):
+        dst = ctx.path("bin", key)
+        for attempt in range(60):
+            try:
+                shutil.copy2(src, dst)
+                break
+            except (FileNotFoundError, OSError):
+                time.sleep(5)          # being relinked by somebody's cargo build
+        else:
+            raise common.ToolError("binary %s does not exist" % src)
+        BIN[key] = dst
+
+
+def vh_limits_batch(reqs, procs=8, timeout=1800):
+    """ndjson requests through the private copy of vh-limits, `procs` processes; results in request order."""
+    if not reqs:
+        return []
+    procs = max(1, min(procs, len(reqs)))
+    chunks = [reqs[i::procs] for i in range(procs)]
+
+    def run(chunk):
+        inp = "\n".join(json.dumps(r) for r in chunk) + "\n"
+        r = subprocess.run([BIN["vh-limits"]], input=inp, capture_output=True, text=True, timeout=timeout)
+        out = [json.loads(l) for l in r.stdout.splitlines() if l.startswith("{")]
+        if len(out) != len(chunk):
+            raise common.ToolError("vh-limits answered %d of %d requests: %s" % (len(out), len(chunk), r.stderr[-500:]))
+        return out
+
+    results = [None] * len(reqs)
+    with concurrent.futures.ThreadPoolExecutor(procs) as ex:
+        for k, out in enumerate(ex.map(run, chunks)):
+            for n, o in enumerate(out):
+                results[k + n * procs] = o
+    return results
 
 
 # ----------------------------------------------------------------------------- geometry (measurement only)
@@ -705,7 +746,7 @@ _STD = []
 
 def std_names():
     if not _STD:
-        r = common.vh(["limits", "std-names"], timeout=60)
+        r = subprocess.run([BIN.get("vh-limits", VHLIMITS), "std-names"], capture_output=True, text=True, timeout=60)
         _STD.extend(json.loads(r.stdout))
         if len(_STD) != 258:
             raise common.ToolError("vh limits std-names: %s" % r.stderr[-300:])
@@ -750,7 +791,7 @@ def observe(case, s, outdir, parallel=False):
         o["panic"] = "panicked" in o.get("stderr", "")
         res[prof] = o
 
-    profiles = (("dbg", common.FONTC), ("rel", RELSEM))
+    profiles = (("dbg", BIN["dbg"]), ("rel", BIN["rel"]))
     if parallel:
         with concurrent.futures.ThreadPoolExecutor(2) as ex:
             list(ex.map(lambda pb: one(*pb), profiles))
@@ -881,6 +922,7 @@ def signature_items(case, verdict, blame):
 def main(ctx):
     common.build_harness()
     build_relsem()
+    private_binaries(ctx)
     ev = ctx.ev
     ev.rule = ("a case is non-trivial when at least one of its items lies at, next to (<= 3 units) or beyond a limit "
                "of its field; distinct = distinct (source kind, field=value...) keys")
@@ -910,9 +952,12 @@ def main(ctx):
     def work(k):
         case = cases[k]
         d = ctx.path("cases", "%04d" % k, "x")[:-2]
-        s = make_source(case, d)
-        t = time.time()
-        obs = observe(case, s, d)
+        try:
+            s = make_source(case, d)
+            t = time.time()
+            obs = observe(case, s, d)
+        except OSError as ex:
+            raise common.ToolError("cannot build case %s: %r" % (case_key(case), ex))
         return k, s, obs, time.time() - t
 
     is_big = lambda c: any(it["field"] == "glyph_count" for it in c["items"])
@@ -928,8 +973,7 @@ def main(ctx):
         budget = 150 if ctx.quick else 840
         per_case = (time.time() - t0) / max(1, len(small))
         n_opt = max(0, min(len(optional), int((budget - (time.time() - t0)) / max(per_case, 1e-3))))
-        if ctx.quick:
-            n_opt = max(n_opt, min(len(optional), 10))
+        n_opt = max(n_opt, min(len(optional), 10 if ctx.quick else 60))     # some pairs run whatever the load
         first = len(cases)
         cases.extend(optional[:n_opt])
         common.log("%d mandatory cases built in %.0fs (%.2fs per case); running %d of %d optional cases" % (
@@ -955,7 +999,7 @@ def main(ctx):
                 reqs.append({"tag": "%d:%s" % (k, prof), "font": o["out"], "glyphs": s.glyphs, "locs": s.locs,
                              "pairs": s.pairs, "marks": s.marks})
                 where.append((k, prof))
-    rbs = common.vh_batch(reqs, procs=8, module="limits", timeout=1200)
+    rbs = vh_limits_batch(reqs, procs=8, timeout=1200)
     readback = {}
     for (k, prof), rb in zip(where, rbs):
         if rb is None:
@@ -1017,6 +1061,16 @@ def main(ctx):
             ctx.drift("Limits", "%s: every value is representable but the build fails: %s" % (
                 case_key(case), (obs["dbg"]["stderr"] or obs["rel"]["stderr"]).strip().splitlines()[-1:]))
         elif v["verdict"] == "reject":
+            if (v["dbg_build"] == "Font" and v["rel_build"] == "Font" and v["dbg_ok"] and v["rel_ok"]
+                    and v["dbg_items"] == v["rel_items"] and s.mf is not None and os.path.exists(s.path)):
+                # only the bytes differ: is it the profile, or is the output not repeatable at all (C01's business)?
+                again = common.run_fontc(s.path, obs["dbg"]["out"] + ".again", timeout=s.timeout, binary=BIN["dbg"],
+                                         mem_gb=16, env={"RAYON_NUM_THREADS": "2", "RUST_BACKTRACE": "0"})
+                sha2 = common.sha256_file(obs["dbg"]["out"] + ".again") if again["font"] == "valid" else ""
+                if sha2 != obs["dbg"]["sha"]:
+                    ctx.drift("Limits", "%s: two debug builds of the same source differ in bytes (not repeatable: C01), "
+                              "so the debug/release byte comparison says nothing" % case_key(case))
+                    continue
             for sig in signature_items(case, v, blame):
                 found.setdefault(sig, []).append((k, summary))
     for sig in sorted(found):
